@@ -35,8 +35,8 @@ let () = iter_lines (fun line ->
       let arg = String.sub op 1 (String.length op - 1) in
       let (a1, a2, na) =
         match String.split_on_char ':' arg with
-        | [x] when x <> "" -> (int_of_string x, 0, 1)
-        | [x; y] -> (int_of_string x, int_of_string y, 2)
+        | [x] when x <> "" -> (try (int_of_string x, 0, 1) with _ -> (0, 0, 0))
+        | [x; y] -> (try (int_of_string x, int_of_string y, 2) with _ -> (0, 0, 0))
         | _ -> (0, 0, 0) in
       match k0 with
       | 'i' -> do_insert "I" a1
@@ -74,6 +74,11 @@ let () = iter_lines (fun line ->
           !t := t';
           Buffer.add_string buf (Printf.sprintf "R%d" (idx it))
         end
+      | 'n' ->
+        let ks = List.map (fun x -> z_of_int (int_of_string x)) (List.filter (fun x -> x <> "") (String.split_on_char ',' arg)) in
+        let before = size () in
+        !t := insert_range mc st bc lin multi !(!t) ks;
+        Buffer.add_string buf (Printf.sprintf "N%d" (size () - before))
       | 'g' ->
         let n = size () in
         if n = 0 then Buffer.add_string buf "G-"
